@@ -1,6 +1,6 @@
 (* Properties_C14.v — C14: ciphertext linear operations act exactly linearly on phases, every dimension. *)
 From Coq Require Import ZArith List Lia.
-From TV Require Import Base.Int32 Model.Lwe Model.Poly Model.Tlwe Proofs.Lwe Proofs.Tlwe.
+From TV Require Import Base.Int32 Ring.NegaRing Model.Lwe Model.Poly Model.Tlwe Model.Tgsw Proofs.Lwe Proofs.Tlwe Proofs.Tgsw Proofs.BlindRotate.
 Import ListNotations.
 Local Open Scope Z_scope.
 
@@ -59,6 +59,27 @@ Theorem C14_extract_phase : forall N k key c j, (0 < N)%nat -> (j < N)%nat -> wf
   lwe_phase (tlwe_extract_key key) (tlwe_extract_exec N c j) = w32 (nth j (tlwe_phase key c) 0).
 Proof. exact extract_phase_exec. Qed.
 Print Assumptions C14_extract_phase.
+
+(* TLWE samples, in the ring: the wrapping C loops compute b - sum_u s_u*a_u; addition, r + d*C with a polynomial d, and
+   multiplication by X^a - 1 act linearly on that phase, for every N >= 1, k, key (coefficient-wise mod 2^32) *)
+Theorem C14_tlwe_phase_is_ring_phase : forall N, (0 < N)%nat -> forall key k c, wf_tsample N k c -> wf_tkey N k key ->
+  eqNm N (ofl (tlwe_phase key c)) (PHv N key c).
+Proof. exact phase_is_PHv. Qed.
+Print Assumptions C14_tlwe_phase_is_ring_phase.
+Theorem C14_tlwe_phase_add : forall N, (0 < N)%nat -> forall key k, wf_tkey N k key -> forall x y, wf_tsample N k x -> wf_tsample N k y ->
+  eqNm N (PHv N key (tlwe_add x y)) (vadd (PHv N key x) (PHv N key y)).
+Proof. exact PHv_add. Qed.
+Print Assumptions C14_tlwe_phase_add.
+Theorem C14_tlwe_phase_addmulR : forall N, (0 < N)%nat -> forall key k r d C,
+  wf_tkey N k key -> wf_tsample N k r -> wf_tsample N k C -> length d = N ->
+  eqNm N (PHv N key (tlwe_addmulR r d C)) (vadd (PHv N key r) (act N d (PHv N key C))).
+Proof. exact PHv_addmulR. Qed.
+Print Assumptions C14_tlwe_phase_addmulR.
+Theorem C14_tlwe_mulByXaiMinusOne : forall N, (0 < N)%nat -> forall key k, wf_tkey N k key -> forall a c, wf_tsample N k c -> (a < 2 * N)%nat ->
+  tlwe_mulByXaiMinusOne (Z.of_nat a) c = Some (map (xm1 a) c) /\
+  eqNm N (PHv N key (map (xm1 a) c)) (vsub (Shn N a (PHv N key c)) (PHv N key c)).
+Proof. intros N HN key k Hk a c Hc Ha. split; [exact (mulXm1_ok N HN k a c Hc Ha)|exact (PHv_xm1 N HN key k Hk a c Hc Ha)]. Qed.
+Print Assumptions C14_tlwe_mulByXaiMinusOne.
 
 Example C14_nonvacuous :
   wf_tsample 4 1 [[1;2;3;4];[5;6;7;8]] /\ wf_tkey 4 1 [[1;0;1;1]] /\
